@@ -364,8 +364,11 @@ func genXLSX(t *rapid.T) XCase {
 	var w xlsxw.Workbook
 	n := rapid.IntRange(1, 6).Draw(t, "sheets")
 	for i := 0; i < n; i++ {
-		// the name is declared in workbook.xml; letters only so that it reads the same in a Markdown heading
-		w.Sheets = append(w.Sheets, genTokenSheet(t, k, "Tab "+k.next()))
+		// The name is declared in workbook.xml. Its leading word is drawn, so the
+		// alphabetical order of the names is independent of the workbook order;
+		// plain letters/digits so that it reads the same in a Markdown heading.
+		word := rapid.SampledFrom([]string{"Alpha", "Zeta", "Mid", "beta", "Sheet1", "Sheet10", "Sheet2", "2", "10", "Öl"}).Draw(t, "nameWord")
+		w.Sheets = append(w.Sheets, genTokenSheet(t, k, word+" "+k.next()))
 	}
 	for i, d := 0, rapid.IntRange(0, 4).Draw(t, "decoys")-2; i < d; i++ {
 		w.Decoys = append(w.Decoys, genTokenSheet(t, k, fmt.Sprintf("Decoy%d", i)))
@@ -398,6 +401,10 @@ func metaXLSX(c XCase) vr.Meta {
 	nd, zd := orderClasses(files, ms)
 	lab := orderLabels("xlsx", nd, zd)
 	lab = append(lab, fmt.Sprintf("xlsx:sheets=%d", len(c.WB.Sheets)))
+	_, names, _ := xlsxParts(c.WB)
+	if !sort.StringsAreSorted(names) {
+		lab = append(lab, "xlsx:declared!=sheet-name-order")
+	}
 	if len(c.WB.Decoys) > 0 {
 		lab = append(lab, "xlsx:decoy-parts")
 	}
@@ -423,7 +430,7 @@ func metaXLSX(c XCase) vr.Meta {
 }
 
 func TestXLSXOrder(t *testing.T) {
-	vr.Prop(t, "xlsx", vr.N(2500, 12000), genXLSX, metaXLSX, checkXLSX)
+	vr.Prop(t, "xlsx", vr.N(1500, 8000), genXLSX, metaXLSX, checkXLSX)
 }
 
 // ---------------------------------------------------------------------------
@@ -573,7 +580,7 @@ func metaPPTX(c PCase) vr.Meta {
 }
 
 func TestPPTXOrder(t *testing.T) {
-	vr.Prop(t, "pptx", vr.N(2500, 12000), genPPTX, metaPPTX, checkPPTX)
+	vr.Prop(t, "pptx", vr.N(1500, 8000), genPPTX, metaPPTX, checkPPTX)
 }
 
 // ---------------------------------------------------------------------------
@@ -688,5 +695,5 @@ func metaEPUB(c ECase) vr.Meta {
 }
 
 func TestEPUBOrder(t *testing.T) {
-	vr.Prop(t, "epub", vr.N(2500, 12000), genEPUB, metaEPUB, checkEPUB)
+	vr.Prop(t, "epub", vr.N(1500, 8000), genEPUB, metaEPUB, checkEPUB)
 }
